@@ -39,12 +39,12 @@ Definition ps_writable (m : ps_mode) : bool :=
   match m with PsR => false | _ => true end.
 
 Record ps_handle := mkPsH {
-  ph_name : ps_name;
-  ph_mode : ps_mode;
-  ph_data : bytes;       (* "r": contents at fopen time *)
-  ph_pos  : Z;           (* "r": read position *)
-  ph_pend : bytes;       (* "w+"/"a": bytes still in the user-space buffer *)
-  ph_open : bool }.
+  psh_name : ps_name;
+  psh_mode : ps_mode;
+  psh_data : bytes;       (* "r": contents at fopen time *)
+  psh_pos  : Z;           (* "r": read position *)
+  psh_pend : bytes;       (* "w+"/"a": bytes still in the user-space buffer *)
+  psh_open : bool }.
 
 Definition ps_files := list (ps_name * bytes).
 
@@ -120,10 +120,10 @@ Definition ps_out (pol : Z -> Z -> Z) (s : ps_sys) (h : Z) (d : bytes) (flush : 
            (close : bool) : option ps_sys :=
   match ps_hget h (ps_hs s) with
   | Some x =>
-      if ph_open x && ps_writable (ph_mode x) then
-        let '(now, later) := if flush then (ph_pend x ++ d, []) else ps_push pol (ph_pend x) d in
-        Some (mkPsS (ps_append (ph_name x) now (ps_fs s))
-                    (ps_hput h (mkPsH (ph_name x) (ph_mode x) (ph_data x) (ph_pos x) later
+      if psh_open x && ps_writable (psh_mode x) then
+        let '(now, later) := if flush then (psh_pend x ++ d, []) else ps_push pol (psh_pend x) d in
+        Some (mkPsS (ps_append (psh_name x) now (ps_fs s))
+                    (ps_hput h (mkPsH (psh_name x) (psh_mode x) (psh_data x) (psh_pos x) later
                                       (negb close)) (ps_hs s))
                     (ps_next s))
       else None
@@ -151,18 +151,18 @@ Definition ps_step (pol : Z -> Z -> Z) (op : ps_op) (s : ps_sys) : ps_res * ps_s
   | PoRead h sz =>
       match ps_hget h (ps_hs s) with
       | Some x =>
-          if ph_open x && negb (ps_writable (ph_mode x)) then
-            if (0 <? sz) && (ph_pos x + sz <=? len (ph_data x)) then
-              (PrData true (take sz (drop (ph_pos x) (ph_data x))),
+          if psh_open x && negb (ps_writable (psh_mode x)) then
+            if (0 <? sz) && (psh_pos x + sz <=? len (psh_data x)) then
+              (PrData true (take sz (drop (psh_pos x) (psh_data x))),
                mkPsS (ps_fs s)
-                     (ps_hput h (mkPsH (ph_name x) (ph_mode x) (ph_data x) (ph_pos x + sz)
-                                       (ph_pend x) true) (ps_hs s)) (ps_next s))
+                     (ps_hput h (mkPsH (psh_name x) (psh_mode x) (psh_data x) (psh_pos x + sz)
+                                       (psh_pend x) true) (ps_hs s)) (ps_next s))
             else if 0 <? sz then
               (* short item: the partial bytes are consumed, the stream is at end of file *)
               (PrData false [],
                mkPsS (ps_fs s)
-                     (ps_hput h (mkPsH (ph_name x) (ph_mode x) (ph_data x) (len (ph_data x))
-                                       (ph_pend x) true) (ps_hs s)) (ps_next s))
+                     (ps_hput h (mkPsH (psh_name x) (psh_mode x) (psh_data x) (len (psh_data x))
+                                       (psh_pend x) true) (ps_hs s)) (ps_next s))
             else (PrData false [], s)
           else (PrData false [], s)
       | None => (PrData false [], s)
@@ -170,14 +170,14 @@ Definition ps_step (pol : Z -> Z -> Z) (op : ps_op) (s : ps_sys) : ps_res * ps_s
   | PoGets h cap =>
       match ps_hget h (ps_hs s) with
       | Some x =>
-          if ph_open x && negb (ps_writable (ph_mode x)) then
-            let l := ps_line (Z.to_nat (cap - 1)) (drop (ph_pos x) (ph_data x)) in
+          if psh_open x && negb (ps_writable (psh_mode x)) then
+            let l := ps_line (Z.to_nat (cap - 1)) (drop (psh_pos x) (psh_data x)) in
             match l with
             | [] => (PrData false [], s)
             | _ => (PrData true l,
                     mkPsS (ps_fs s)
-                          (ps_hput h (mkPsH (ph_name x) (ph_mode x) (ph_data x) (ph_pos x + len l)
-                                            (ph_pend x) true) (ps_hs s)) (ps_next s))
+                          (ps_hput h (mkPsH (psh_name x) (psh_mode x) (psh_data x) (psh_pos x + len l)
+                                            (psh_pend x) true) (ps_hs s)) (ps_next s))
             end
           else (PrData false [], s)
       | None => (PrData false [], s)
@@ -205,16 +205,16 @@ Definition ps_step (pol : Z -> Z -> Z) (op : ps_op) (s : ps_sys) : ps_res * ps_s
   | PoClose h =>
       match ps_hget h (ps_hs s) with
       | Some x =>
-          if ph_open x then
-            if ps_writable (ph_mode x) then
+          if psh_open x then
+            if ps_writable (psh_mode x) then
               match ps_out pol s h [] true true with
               | Some s' => (PrInt 0, s')
               | None => (PrInt (-1), s)
               end
             else (PrInt 0,
                   mkPsS (ps_fs s)
-                        (ps_hput h (mkPsH (ph_name x) (ph_mode x) (ph_data x) (ph_pos x)
-                                          (ph_pend x) false) (ps_hs s)) (ps_next s))
+                        (ps_hput h (mkPsH (psh_name x) (psh_mode x) (psh_data x) (psh_pos x)
+                                          (psh_pend x) false) (ps_hs s)) (ps_next s))
           else (PrInt (-1), s)
       | None => (PrInt (-1), s)
       end
